@@ -157,8 +157,27 @@ func (st *e1State) genOp(rt *rapid.T) model.Op {
 				}
 			}
 		}
-		cls := irange(rt, 0, 9, "advClass")
+		cls := irange(rt, 0, 10, "advClass")
+		// instants at a "magic" distance from ANY stamped expiry, past or future: the sentinels -1s / -2s are ordinary
+		// durations, so code that mixes them with real remaining lifetimes goes wrong exactly there
+		var stamped []int64
+		for i := range m.Ents {
+			if e := &m.Ents[i]; e.Phys != model.Absent && e.E > 0 && e.E < vs.Epoch+(1<<61) {
+				stamped = append(stamped, e.E)
+				if len(stamped) >= 12 {
+					break
+				}
+			}
+		}
 		switch {
+		case cls == 10 && len(stamped) > 0:
+			e := pick(rt, stamped, "magicTarget")
+			off := pick(rt, []int64{1000000000, 2000000000, 1000000000 - 1, 1000000000 + 1, 2000000000 - 1, 2000000000 + 1, -1000000000, -2000000000, 1500000000}, "magicOff")
+			d := e + off - m.Now
+			if d < 0 {
+				d = 0
+			}
+			o.D = d
 		case cls < 6 && len(cand) > 0:
 			e := pick(rt, cand, "targetExpiry")
 			d := e - m.Now + int64(irange(rt, -1, 1, "around"))
@@ -166,7 +185,7 @@ func (st *e1State) genOp(rt *rapid.T) model.Op {
 				d = 0
 			}
 			o.D = d
-		case cls < 9:
+		case cls < 9 || cls == 10:
 			o.D = int64(irange(rt, 0, 150, "advSmall"))
 		default:
 			o.D = pick(rt, []int64{1000, 1000000000, 3000000000}, "advBig")
